@@ -118,3 +118,8 @@ m("C07", ["RD"], B, "            match libm::fabs(b).partial_cmp(&limit) {", "  
 m("C04", ["R8", "RB"], A, "    f64::mul_add(x, y, z)\n", "    f64::mul_add(y, z, x)\n", "fma wrapper with rotated operands in the std build (R5 no longer fixes the arrangement; conformance must)")
 m("C02", ["R4"], A, "    f64::mul_add(x, y, z)\n", "    f64::mul_add(z, y, x)\n", "fma wrapper with swapped operands")
 m("C03", ["R7"], "src/iter.rs", "iter.fold(Self::zero(), <Self>::add)", "{ let mut t = Self::zero(); let mut n = 0usize; iter.for_each(|x| { if n == 0 { t = t + x; } n += 1; }); t }", "sum that only adds the first item, written with for_each (captures assigned inside an opaque call)")
+# round 7: the powi walker enumerates the paths of one pass instead of matching one loop shape; division by 2^k is read as multiplication by 2^-k
+m("C13", ["R26"], B, "                while n_pos > 0 {\n                    if (n_pos & 1) != 0 {", "                while n_pos > 1 {\n                    if (n_pos & 1) != 0 {", "powi loop stops one bit early")
+m("C13", ["R26"], B, "                while n_pos > 0 {\n                    if (n_pos & 1) != 0 {\n                        result *= &value;\n                    }\n                    value *= value;\n                    n_pos >>= 1;\n                }", "                loop {\n                    n_pos >>= 1;\n                    if n_pos == 0 {\n                        break;\n                    }\n                    if (n_pos & 1) != 0 {\n                        result *= &value;\n                    }\n                    value *= value;\n                }", "powi loop with an early break that drops the lowest bit")
+m("C13", ["R26"], B, "                while n_pos > 0 {\n                    if (n_pos & 1) != 0 {\n                        result *= &value;\n                    }\n                    value *= value;\n                    n_pos >>= 1;\n                }", "                loop {\n                    if (n_pos & 1) != 0 {\n                        result *= &value;\n                    }\n                    n_pos >>= 1;\n                    value *= value;\n                    if n_pos == 0 {\n                        break;\n                    }\n                    result *= &value;\n                }", "powi loop with an early break and one multiplication too many per pass")
+m("C14", ["R33", "R36"], EX, "            let z = self - y / 2.0;", "            let z = self - y * 0.25;", "exp reduction subtracts y/4 (multiplication by a different power of two)")
